@@ -264,6 +264,9 @@ class ExprCall(Expr):
     @property
     def canonical_path(self) -> str:
         """The canonical path of this subscript's left part."""
+        if isinstance(self.function, str):
+            # Calls of literals (`None(0)`) are valid syntax: there is no path to resolve, return the literal.
+            return self.function
         return self.function.canonical_path
 
     def iterate(self, *, flat: bool = True) -> Iterator[str | Expr]:
